@@ -160,6 +160,52 @@ claim('C15', 'other',
       'Lean 4 theorems on a history machine + refinement check of real API histories (digests)',
       'DESIGN.md section 5 C15')
 
+claim('C06', 'proof',
+      'Lean 4 theorems C06_* over Matrix R: cost(V) - cost(U) = |(V-U)Psi|^2 + alpha |V-U|^2 for any solution U of the '
+      'normal equations, hence optimality for every alpha >= 0, uniqueness (alpha > 0 / invertible Gram), harmless 1/q '
+      'scaling, exact recovery on noise-free data with invertible Psi Psi^T, and the untruncated DMDc / DMD SVD formula '
+      'solving the same equations; certificate theorem: what the exact-rational driver prints satisfies U H = G in Q. '
+      'Correspondence: Edmd.coef_ (both call forms, single/multi episode, tall/square/wide) vs the certified rational '
+      'solution.',
+      'Lean kernel + standard axioms + Mathlib Matrix; scipy.linalg.lstsq / LinearRegression / LAPACK SVD are trusted and '
+      'validated (gradient, perturbation, recovery of [A B] for Edmd(0), EdmdMeta(), Dmdc(), Dmd()); EdmdMeta loses '
+      'accuracy beyond cond(H) ~ 1e6 (scikit-learn tol): generators keep cond(Psi) <= 100.',
+      'Lean 4 proof (trace algebra over Mathlib Matrix) + exact rational correspondence with certificate',
+      'DESIGN.md section 5 C06')
+claim('C09', 'proof',
+      'Lean 4 theorems C09_*: the spectral-radius LMI block forces V(Ax) < rho^2 V(x), hence |mu| < rho for every real or '
+      'complex eigenvalue of A (eigen_complex), the DMDc transfer through Q^T Q = 1, and the loop invariant of the '
+      'alternating A/B state machine (whatever is returned is 0 or the U of an optimal sub-problem-A answer, for every '
+      'solver behaviour, stop timing and budget). Correspondence: the real _create_problem_a/_b evaluated with PICOS at '
+      'dyadic points vs the SAME Lean block definitions evaluated over Q; the real fit loop driven by a scripted solver '
+      'vs the loop machine. Oracle: cvxopt fits on stable / marginal / unstable data.',
+      "Lean kernel + standard axioms + Mathlib; assumed: an 'optimal' solver answer satisfies its constraints up to "
+      'tolerance (the oracle measures the spectral radius of every returned A and the monotonicity of the objective log); '
+      'PICOS / cvxopt trusted.',
+      'Lean 4 proof (quadratic form of the LMI at a chosen block vector; induction over the loop) + PICOS-evaluation and scripted-solver correspondence',
+      'DESIGN.md section 5 C09')
+claim('C10', 'proof',
+      'Lean 4 theorems C10_*: from the 4x4-block LMI alone (P symmetric) the identified weighted system satisfies strict '
+      'dissipation with storage x^T P^-1 x, the l2-gain bound sum |y|^2 <= gamma^2 sum |u|^2 over EVERY finite horizon from '
+      'rest (induction, no side conditions: positivity and invertibility of P are derived from the LMI), and asymptotic '
+      'stability (its 2x2 sub-block is the spectral-radius block with rho = 1, reusing C09). Correspondence: problem A '
+      'and _create_ss (no weight / pre / post) via PICOS evaluation vs the Lean blocks over Q; scripted-solver loop. '
+      'Oracle: independently computed H-infinity norm (frequency sweep + refinement) vs gamma_ on cvxopt fits.',
+      'Partial on: Parseval (time-domain gain over all horizons = H-infinity norm) not proved; scipy zpk->ss and '
+      "discretisation of LmiHinfZpkMeta trusted; 'optimal' means feasible up to tolerance (measured).",
+      'Lean 4 proof (inverse-free bounded-real lemma, telescoping induction) + PICOS-evaluation correspondence + frequency-domain oracle',
+      'DESIGN.md section 5 C10')
+claim('C11', 'proof',
+      'Lean 4 theorems C11_*: the dissipativity LMI implies V(Ax+Bu) - V(x) <= supply for every (x,u), summed over any '
+      'horizon; default supply rate = l2 gain at most one; AND C11_first_problem_infeasible: with default arguments the '
+      'first sub-problem (P = I) has no feasible point for ANY (A,B), i.e. for every data set - the second clause of the '
+      'property fails on the unchanged tree (known finding F-diss, reproduced by the check). Correspondence: LMI '
+      'structure via PICOS evaluation (default and random symmetric supply rates) and the scripted-solver loop.',
+      "Lean kernel + standard axioms + Mathlib; 'optimal' means feasible up to tolerance (the oracle checks the "
+      'dissipation inequality with the returned (coef_, P_) and the frequency-domain gain for gain-bound supply rates).',
+      'Lean 4 proof (quadratic form at (x,u,-(Ax+Bu)); closed infeasibility argument) + PICOS-evaluation correspondence',
+      'DESIGN.md section 5 C11')
+
 ALL = [f'C{i:02d}' for i in range(1, 21)]
 
 
